@@ -182,3 +182,50 @@ pub proof fn lemma_pad4(count: usize)
     assert((y & 0x03) == (4 - count % 4) % 4 && (y & 0x03) <= 3) by (bit_vector)
         requires x == count ^ 0x03, y == x + 1, count < 0xFFFF_FFFF_FFFF_FFF0usize;
 }
+
+// ---- 3 Block -----------------------------------------------------------------------------------------
+pub enum BlockRes {
+    Bad,                                                   // malformed / failed integrity check: must be rejected
+    Unspec,                                                // more than one filter: outside the supported subset, unspecified here
+    Good { used: nat, out: Seq<u8>, unpadded: nat },     // bytes of `s` consumed, decoded data, Unpadded Size
+}
+
+/// `hsb` is the (non-zero) Block Header Size byte, `rem` the bytes that follow it.  `check` is the
+/// stream's check type.  `used` counts bytes of `rem`; `unpadded` is the Unpadded Size (size byte included).
+pub open spec fn sp_xz_block(hsb: u8, rem: Seq<u8>, check: u8) -> BlockRes {
+    if hsb == 0 { BlockRes::Bad }
+    else {
+        let hs: nat = ((hsb as nat) * 4 - 1) as nat;     // header bytes after the size byte, CRC32 excluded
+        if rem.len() < hs + 4 { BlockRes::Bad }
+        else {
+            match sp_block_header(rem.take(hs as int), hs) {
+                None => BlockRes::Bad,
+                Some(bh) => {
+                    if le32(rem.skip(hs as int)) != crc32_of(seq![hsb] + rem.take(hs as int)) { BlockRes::Bad }
+                    else if bh.filters.len() != 1 { BlockRes::Unspec }
+                    else if bh.filters[0].props.len() != 1 { BlockRes::Bad }
+                    else {
+                        let off: nat = hs + 4;
+                        match sp_lzma2(rem.skip(off as int), fresh_model(0, 0, 0), Win { out: Seq::<u8>::empty(), hist: 0, maxd: usize::MAX as nat }) {
+                            None => BlockRes::Bad,
+                            Some((k, m3, w3)) => {
+                                if bh.packed is Some && bh.packed.unwrap() != k { BlockRes::Bad }
+                                else if bh.unpacked is Some && bh.unpacked.unwrap() != w3.out.len() { BlockRes::Bad }
+                                else {
+                                    let pos = off + k;
+                                    let pad = sp_pad4(1 + pos);
+                                    let cs = sp_check_size(check);
+                                    if rem.len() < pos + pad + cs || !all_zero(rem.subrange(pos as int, (pos + pad) as int)) { BlockRes::Bad }
+                                    else if !sp_check_supported(check) { BlockRes::Bad }
+                                    else if check == 0x01 && le32(rem.skip((pos + pad) as int)) != crc32_of(w3.out) { BlockRes::Bad }
+                                    else if check == 0x04 && le64(rem.skip((pos + pad) as int)) != crc64_of(w3.out) { BlockRes::Bad }
+                                    else { BlockRes::Good { used: pos + pad + cs, out: w3.out, unpadded: 1 + pos + cs } }
+                                }
+                            }
+                        }
+                    }
+                }
+            }
+        }
+    }
+}
